@@ -248,7 +248,7 @@ def model_fidelity(res, module):
             if 'OpenVerdictAsModelled' in v['rules']: out['open_verdict_not_as_modelled'] += 1
             if 'StateAsModelled' in v['rules']: out['state_not_as_modelled'] += 1
             if len(out['examples']) < 5:
-                e = evs[v['line'] - 1]; out['examples'].append(dict(scn=v['scn'], line=v['line'], ev=e.get('e'), rules=v['rules'], pos=e.get('pos'), off0=e.get('off0'), ret=e.get('ret'), probes=e.get('probes'), tab=e.get('tab'), model=v.get('model'), code={k: e.get(k) for k in ('ret', 'tell', 'rs', 'cur', 'off')}))
+                e = evs[v['line'] - 1]; out['examples'].append(dict(scn=v['scn'], line=v['line'], ev=e.get('e'), rules=v['rules'], pos=e.get('pos'), off0=e.get('off0'), ret=e.get('ret'), probes=e.get('probes'), tab=e.get('tab'), model=v.get('model'), code={k: e.get(k) for k in ('ret', 'tell', 'rs', 'cur', 'off', 'dr', 'dc', 'dw')}))
     if out['probes_not_as_modelled'] or out['model_submits_other_page'] or out['link_table_not_as_modelled'] or out['open_verdict_not_as_modelled'] or out['state_not_as_modelled']:
         vlib.log(f"[{module}] MODEL-DRIFT notes: probes {out['probes_not_as_modelled']}, page {out['model_submits_other_page']}, link table {out['link_table_not_as_modelled']}, verdict {out['open_verdict_not_as_modelled']}, handle state {out['state_not_as_modelled']} of {out['calls_compared']} calls; first: {out['examples'][:1]}")
     return out
